@@ -491,6 +491,8 @@ def run(ck):
                 ck.ob('R6.4', 'brcond-targets-reachable', brcond >= 2, L.loc(fc['body']), '%d unconditional marks for BrCond targets' % brcond)
                 # forward closure over both edge kinds (worklist) feeding the vector for non-empty blocks; the closure may be computed
                 # here or in a helper that returns the vector
+                fc_notes = []
+
                 def forward_closure(fx, exclude_hid=None):
                     """local (Path node) of the bool vector that a sound work-list closure of fx sets, or None."""
                     for lp in (n for n in walk(fx['body']) if n.get('k') == 'Loop'):
@@ -509,6 +511,14 @@ def run(ck):
                                     kind = 'BrCond' if 'BrCond' in pt else 'Br' if 'Terminator::Br' in pt else None
                                     if kind:
                                         pushed[kind] = pushed.get(kind, 0) + (1 if c['m'] == 'push' else len((H.strip_refs(c['args'][0]).get('es') or [0, 0])))
+                        # the closure is complete only if the loop runs until the list is empty: no break / return inside it
+                        top_if = next((x for x in walk(lp) if x.get('k') == 'If' and x['c'] is lc), None)
+                        desugared = {id(x) for x in walk(top_if['els'])} if top_if is not None and 'els' in top_if else set()     # `while let` ends by a break there
+                        early = [x for x in walk(lp, enter_closures=False) if x.get('k') in ('Break', 'Ret') and id(x) not in desugared and
+                                 next((a for a in H.ancestors(fx, x) if a.get('k') in ('Loop', 'For', 'Closure')), None) is lp]
+                        if early:
+                            fc_notes.append('the work-list loop at %s can be left by `%s` while blocks are still queued: blocks not reached by then count as dead' % (L.loc(lp), early[0]['k'].lower()))
+                            continue
                         if pushed.get('Br', 0) >= 1 and pushed.get('BrCond', 0) >= 2:
                             lv = None
                             for x in walk(lp):
@@ -544,7 +554,7 @@ def run(ck):
                 ok = br_direct or closure_ok or empt
                 ck.ob('R6.4', 'unreachable-implies-dead', ok, L.loc(site),
                       'a block entered through `br` from live code is never given the unreachable marker' if ok else
-                      'the reachability test counts the entry and BrCond targets only; a block that holds statements and is entered through plain `br` '
+                      ('; '.join(fc_notes) + ': ' if fc_notes else '') + 'the reachability test counts the entry and BrCond targets only; a block that holds statements and is entered through plain `br` '
                       '(the join after a ternary, after if/else, a switch end) gets the unreachable marker although control reaches it')
         # predecessors are redirected only through empty blocks, and all `br` predecessors are recorded
         inc = [n for n in walk(fc['body']) if n.get('k') == 'MCall' and n.get('m') == 'push' and 'incoming' in pp(n['recv'])]
